@@ -58,6 +58,12 @@ type httpCase struct {
 	Docs [][]byte // Docs[0]: the body the request arrives with
 	Ops  []opT
 	Form [][2]string // the form body (for the form content type), encoded as Docs[0]
+	// Before: the route has two WithBefore middlewares - the first binds the request (into a scratch value) and
+	// returns, the second serves another request with the JSON body Inter (when not nil) on the same app from start
+	// to end - before the handler runs on its own app.Context. The handler's binds are those of a fresh context on
+	// the same request.
+	Before bool   `json:",omitempty"`
+	Inter  []byte `json:",omitempty"`
 }
 
 var bodyTypes []*corpusType // gen_types.py BodyGen
@@ -588,6 +594,12 @@ func genHTTPCase(r *hx.Rand, ct *corpusType) caseT {
 	for i := 0; i < nd; i++ {
 		h.Docs = append(h.Docs, genJSONDoc(r, ct))
 	}
+	if r.Chance(1, 3) {
+		h.Before = true
+		if r.Chance(2, 3) {
+			h.Inter = genJSONDoc(r, ct)
+		}
+	}
 	// the handler: binds, body replacements, ResetBinding — always ending in a bind
 	switch r.Intn(8) {
 	case 0, 1, 2:
@@ -938,6 +950,28 @@ func emitHTTP(id string, c caseT, ct *corpusType, mk func() any, init string, st
 	var res any
 	var err error
 	var panicked, ran bool
+	var ropts []app.RouteOption
+	if h.Before {
+		ropts = append(ropts, app.WithBefore(
+			func(ctx *app.Context) {
+				defer func() { _ = recover() }()
+				_ = ctx.BindOnly(mk())
+			},
+			func(ctx *app.Context) {
+				if h.Inter == nil {
+					return
+				}
+				defer func() { _ = recover() }()
+				other := httptest.NewRequest(http.MethodPost, "/c04-other", bytes.NewReader(h.Inter))
+				other.Header.Set("Content-Type", "application/json")
+				a.Router().ServeHTTP(httptest.NewRecorder(), other)
+			},
+		))
+		a.POST("/c04-other", func(ctx *app.Context) {
+			defer func() { _ = recover() }()
+			_ = ctx.BindOnly(mk())
+		})
+	}
 	a.POST(pattern, func(ctx *app.Context) {
 		ran = true
 		pm := map[string][]string{}
@@ -988,7 +1022,7 @@ func emitHTTP(id string, c caseT, ct *corpusType, mk func() any, init string, st
 				}
 			}
 		}
-	})
+	}, ropts...)
 	req := httptest.NewRequest(http.MethodPost, path, bytes.NewReader(h.Docs[0]))
 	q := url.Values{}
 	for _, p := range c.Srcs[1].KV {
@@ -1057,6 +1091,12 @@ func emitHTTP(id string, c caseT, ct *corpusType, mk func() any, init string, st
 		st.Count("http_via_" + c.Via)
 		st.Count(fmt.Sprintf("http_ops_%d", len(h.Ops)))
 		st.Count("http_ct_" + strings.ToLower(strings.TrimSpace(strings.Split(h.CT, ";")[0])))
+		if h.Before {
+			st.Count("http_before_middleware_binds")
+			if h.Inter != nil {
+				st.Count("http_other_request_in_between")
+			}
+		}
 	}
 	return l.String() + hx.Comment(c)
 }
